@@ -50,11 +50,12 @@ class IkeCtx:
 
 
 class WireOracle:
-    def __init__(self, world, creds):
+    def __init__(self, world, creds, kdf=None):
         """creds: {endpoint: {'psk': bytes|None, 'pub': cryptography public key|None}} - the credential each endpoint
         authenticates with (as configured at its peer)."""
         self.w = world
         self.creds = creds
+        self.kdf = kdf or kdf_ref         # spec-driven evaluation (plan_eval.PlanKdf) when given
         self.ikes = {}            # (spi_i, spi_r) -> IkeCtx
         self.children = {}        # child spi (bytes) -> dict(expected kernel SA material)
         self.pending_rekey = {}   # new spi_i -> (parent ctx, request payloads, ...)
@@ -126,7 +127,7 @@ class WireOracle:
             if kei['group'] != suite['dh'] or ker['group'] != suite['dh']:
                 raise OracleError('ke', 'KE group differs from the chosen DH transform')
             secret = self.shared_secret(suite['dh'], kei['data'], ker['data'])
-            keys = kdf_ref.ike_keys(suite['prf'], suite['integ'], suite['encr_bits'], ni, nr, rq['spi_i'], rs['spi_r'], secret)
+            keys = self.kdf.ike_keys(suite['prf'], suite['integ'], suite['encr_bits'], ni, nr, rq['spi_i'], rs['spi_r'], secret)
             self.ikes[(rq['spi_i'], rs['spi_r'])] = IkeCtx(rq['spi_i'], rs['spi_r'], suite, keys, ni, nr, bytes(req_data), bytes(res_data))
             return 'init'
         rs, ctx, rsp = self.open(res_data)
@@ -155,7 +156,7 @@ class WireOracle:
                 secret = self.shared_secret(suite['dh'], kei['data'], ker['data'])
             if prop['proto'] == 1:        # IKE_SA rekey: SKEYSEED = prf(SK_d (old), g^ir (new) | Ni | Nr), new SPIs from the SA payloads
                 new_i, new_r = sa_q['proposals'][0]['spi'], prop['spi']
-                keys = kdf_ref.ike_keys(suite['prf'], suite['integ'], suite['encr_bits'], ni, nr, new_i, new_r, secret,
+                keys = self.kdf.ike_keys(suite['prf'], suite['integ'], suite['encr_bits'], ni, nr, new_i, new_r, secret,
                                         old_sk_d=ctx.keys['sk_d'])
                 # the exchange initiator becomes the initiator of the new IKE_SA
                 self.ikes[(new_i, new_r)] = IkeCtx(new_i, new_r, suite, keys, ni, nr, None, None, parent=ctx)
@@ -171,11 +172,11 @@ class WireOracle:
         own = ctx.init_req if from_initiator else ctx.init_res
         other_nonce = ctx.nr if from_initiator else ctx.ni
         sk_p = ctx.keys['sk_pi' if from_initiator else 'sk_pr']
-        octets = kdf_ref.signed_octets(ctx.suite['prf'], own, other_nonce, sk_p, idp['id_type'], idp['data'])
+        octets = self.kdf.signed_octets(ctx.suite['prf'], own, other_nonce, sk_p, idp['id_type'], idp['data'])
         cred = self.creds[signer_ep]
         ok = False
         if auth['method'] == 2 and cred.get('psk') is not None:
-            ok = kdf_ref.psk_auth(ctx.suite['prf'], cred['psk'], octets) == auth['data']
+            ok = self.kdf.psk_auth(ctx.suite['prf'], cred['psk'], octets) == auth['data']
         elif auth['method'] == 1 and cred.get('pub') is not None:
             from cryptography.exceptions import InvalidSignature
             from cryptography.hazmat.primitives import hashes
@@ -195,7 +196,7 @@ class WireOracle:
         prop_q = next(p for p in rqp if p['t'] == W.SA)['proposals'][0]
         prop_r = next(p for p in rsp if p['t'] == W.SA)['proposals'][0]
         suite = suite_of(prop_r)
-        km = kdf_ref.child_keys(ctx.suite['prf'], ctx.keys['sk_d'], suite['integ'], suite['encr_bits'] if prop_r['proto'] == 3 else 0,
+        km = self.kdf.child_keys(ctx.suite['prf'], ctx.keys['sk_d'], suite['integ'], suite['encr_bits'] if prop_r['proto'] == 3 else 0,
                                 ni, nr, secret)
         tsi = next(p for p in rsp if p['t'] == W.TSI)['ts'][0]
         tsr = next(p for p in rsp if p['t'] == W.TSR)['ts'][0]
